@@ -530,10 +530,9 @@ def run_instance(body, params=None, label='', max_paths=256, max_depth=64,
                                        'observed': v.get('detail')}, f, indent=1)
                         v['replay'] = fnm
                     v.pop('values', None)
-                    if cl.core:
-                        rec['violations'].append(v)
-                    else:
-                        rec['best_effort_open'].append({'claim': cl.name, 'why': 'cex reproduced (best-effort claim)'})
+                    # a counterexample that reproduces on the real code is a violation whether or not the claim is one the
+                    # solver is expected to decide ("best effort" only means that unknown / unreproduced is not inconclusive)
+                    rec['violations'].append(v)
                 else:
                     v.pop('values', None)
                     (rec['inconclusive'] if cl.core else rec['best_effort_open']).append(
